@@ -341,6 +341,13 @@ def validateRouting (profiles : List String) (vehicles : List ApiVehicle) (maxIn
      if maxIndex + 1 == size && ms.all (fun x => x.distances.length == size * size) then [] else ["E1504"]) ++
   (if vehicles.any (fun v => !profiles.contains v.matrix) then ["E1505"] else [])
 
+/-- `CoordIndex::new`: the index given to the location of custom type `unknown` — the square of the number of
+    *distinct* locations that refer to the matrix (not of the matrix size) -/
+def customIndex (locs : List Nat) : Nat := locs.eraseDups.length * locs.eraseDups.length
+
+/-- `UnknownLocationFallback` for a pair with the unknown location on one side: zero duration and distance -/
+def unknownFallback : Fallback := some (0, 0)
+
 /-! ## scientific formats: `CoordIndex` + `SingleDataTransportCost` -/
 
 /-- `CoordIndex::collect` over a list of points: first appearance defines the index -/
